@@ -105,3 +105,113 @@ def scan_function(fn):
         elif isinstance(n, ast.Starred) and is_set_expr(n.value, sv):
             setiter.append((n.lineno, "*" + ast.unparse(n.value)[:80]))
     return nondet, setiter
+
+
+# ---------------------------------------------------------------------------------------------------------------------------------
+# clock values must not reach a decision; memoised functions must not hide module state
+CLOCK_CALLS = {'dtimer', 'getrusage', 'perf_counter', 'process_time', 'monotonic', 'time_ns', 'now'}
+
+
+def _call_name(n):
+    f = n.func
+    return f.id if isinstance(f, ast.Name) else (f.attr if isinstance(f, ast.Attribute) else None)
+
+
+def _mentions(e, names):
+    return any((isinstance(x, ast.Name) and x.id in names) or (isinstance(x, ast.Attribute) and ast.unparse(x) in names) for x in ast.walk(e))
+
+
+def _is_clock_call(n):
+    if not isinstance(n, ast.Call):
+        return False
+    nm = _call_name(n)
+    if nm in CLOCK_CALLS:
+        return True
+    return nm == 'time' and isinstance(n.func, ast.Attribute) and isinstance(n.func.value, ast.Name) and n.func.value.id == 'time'
+
+
+def clock_taint(funcs):
+    """funcs: {key: ast.FunctionDef}.  Returns (tainted names per function, positions of the returned tuple that carry a clock value
+    per function name, sites where a clock value is compared or tested).  A name is tainted when it is assigned from a clock call, from
+    an expression over tainted names, or from the tainted position of the tuple returned by a function of the analysis (by name)."""
+    ret_pos = {}                       # function name -> set of tuple positions (or {None} = the whole value)
+    tainted = dict((k, set()) for k in funcs)
+    changed = True
+
+    def expr_tainted(e, names):
+        if any(_is_clock_call(x) for x in ast.walk(e)):
+            return True
+        if _mentions(e, names):
+            return True
+        return False
+    rounds = 0
+    while changed and rounds < 8:
+        changed = False
+        rounds += 1
+        for k, fn in funcs.items():
+            names = tainted[k]
+            for n in ast.walk(fn):
+                targets, value = None, None
+                if isinstance(n, ast.Assign):
+                    targets, value = n.targets, n.value
+                elif isinstance(n, ast.AugAssign):
+                    targets, value = [n.target], n.value
+                if targets is None:
+                    continue
+                new = set()
+                if expr_tainted(value, names):
+                    # whole value tainted: a call result is only tainted where the callee says so
+                    if isinstance(value, ast.Call) and not _is_clock_call(value) and not _mentions(value, names) and _call_name(value) not in ret_pos:
+                        pass
+                    else:
+                        for t in targets:
+                            if isinstance(t, (ast.Name, ast.Attribute)):
+                                new.add(ast.unparse(t) if isinstance(t, ast.Attribute) else t.id)
+                if isinstance(value, ast.Call) and _call_name(value) in ret_pos:
+                    pos = ret_pos[_call_name(value)]
+                    for t in targets:
+                        if isinstance(t, ast.Tuple):
+                            for i, el in enumerate(t.elts):
+                                if (i in pos or None in pos) and isinstance(el, ast.Name):
+                                    new.add(el.id)
+                        elif isinstance(t, ast.Name) and None in pos:
+                            new.add(t.id)
+                if not new <= names:
+                    names |= new
+                    changed = True
+            # what the function returns
+            pos = ret_pos.setdefault(fn.name, set())
+            for n in ast.walk(fn):
+                if isinstance(n, ast.Return) and n.value is not None:
+                    if isinstance(n.value, ast.Tuple):
+                        for i, el in enumerate(n.value.elts):
+                            if expr_tainted(el, names) and i not in pos:
+                                pos.add(i)
+                                changed = True
+                    elif expr_tainted(n.value, names) and not isinstance(n.value, ast.Call) and None not in pos:
+                        pos.add(None)
+                        changed = True
+    sites = []
+    for k, fn in funcs.items():
+        names = tainted[k]
+        if not names:
+            continue
+        for n in ast.walk(fn):
+            test = None
+            if isinstance(n, (ast.If, ast.While, ast.IfExp, ast.Assert)):
+                test = n.test
+            elif isinstance(n, ast.Compare):
+                test = n
+            if test is not None and _mentions(test, names):
+                sites.append((k, n.lineno, ast.unparse(test)[:100]))
+    return tainted, ret_pos, sorted(set(sites))
+
+
+def memoised(fn):
+    """decorators that keep results between calls"""
+    out = []
+    for d in fn.decorator_list:
+        txt = ast.unparse(d)
+        if any(w in txt for w in ('lru_cache', 'functools.cache', 'cached_property', 'memoize', 'memoise')) or txt in ('cache',):
+            out.append(txt)
+    return out
